@@ -770,7 +770,9 @@ PROPERTIES = {
                    nontrivial=lambda obs, case: sum(1 for o in obs if o.startswith("NEW")) >= 1,
                    extra_streams=[{"stream": "run", "profile": "flow", "quick": 300, "thorough": 3000, "special": special_concurrent},
                                   # two runners, one of them inside a built-in wait while the other restores / completes / fails (real timers)
-                                  {"stream": "wait", "profile": "cross", "quick": 16, "thorough": 300, "nontrivial": lambda obs, case: True, "timeout": 1800}],
+                                  {"stream": "wait", "profile": "cross", "quick": 16, "thorough": 300, "nontrivial": lambda obs, case: True, "timeout": 1800},
+                                  # many runners inside commands that wait for each other (3 to 70 at once)
+                                  {"stream": "wait", "profile": "crowd", "quick": 12, "thorough": 200, "nontrivial": lambda obs, case: True, "timeout": 1800}],
                    generated_facts=["Generated.PackageState (tools/pkgstate): no writable package-level state in the hand-written packages == Props/C18.no_mutable_package_state by decide"],
                    rule="run/snap: several runners of one script created and stepped in deterministic sequential interleavings (logical sharing shows as divergence from the model); concurrent: the same flow cases run sequentially and, under the race detector, each in its own goroutine with 4-32 goroutines and GOMAXPROCS 1-16: every trace must equal the solo trace and the race detector must stay silent",
                    leanchecker=["Ysgo.Props.C18"], trusted=["Go race detector (supporting evidence only)"]),
